@@ -369,6 +369,35 @@ func c14(x *mon.Ctx) {
 			add("any-mr-td", fmt.Sprintf("len%d/last-short", n), ref.Policy{AnyMrTd: bad}, quotes, nil)
 		}
 	}
+	// allow-lists with repeated entries among several distinct ones (lists concatenated from several sources): every listed
+	// value stays permitted, whichever entries are repeated; converted a number of times each (a conversion is a function)
+	{
+		quotes, q := mkQuotes()
+		for _, n := range []int{3, 4, 5, 8, 16} {
+			for _, at := range []int{0, 1, n - 1} {
+				for rep := 0; rep < 8; rep++ {
+					a, b := make([]byte, 48), make([]byte, 48)
+					r.Read(a)
+					r.Read(b)
+					var l [][]byte
+					for i := 0; i < n; i++ {
+						switch {
+						case i == at:
+							l = append(l, append([]byte{}, q.MrTd...))
+						case i%2 == 0:
+							l = append(l, append([]byte{}, a...))
+						default:
+							l = append(l, append([]byte{}, b...))
+						}
+					}
+					if n >= 5 { // the matching value is repeated, too
+						l[(at+2)%n] = append([]byte{}, q.MrTd...)
+					}
+					add("any-mr-td", fmt.Sprintf("len%d/match@%d-among-repeated-others#%d", n, at, rep), ref.Policy{AnyMrTd: l}, quotes, nil)
+				}
+			}
+		}
+	}
 	// a wrongly sized list entry behind an empty ("do not care") one, at every pair of positions
 	{
 		quotes, q := mkQuotes()
